@@ -419,6 +419,7 @@ def run_world(arg):
         others = {}
         extra = log['extra']
         extra['recorded'] = {}
+        damaged = set()
         w.backend.objects['stray/readme'] = b'not replicat'
         for step_no in range(n_ops):
             ui = r.randrange(len(w.users))
@@ -520,12 +521,13 @@ def run_world(arg):
             if st['kind'] in ('delete', 'clean'):
                 for s in present(w):
                     d = w.snap_by_sid[s]
-                    if d['owner'] == u.keyid and d['fam'] == u.fam:
+                    if (d['owner'] == u.keyid and d['fam'] == u.fam) or s in damaged:
                         continue
                     oi = next(i for i, uu in enumerate(w.users) if uu.keyid == d['owner'] and uu.fam == d['fam'])
                     err, tree = w.restore(oi, snapshot_regex='^' + d['name'] + '$')
                     if err is not None or tree != d['truth']:
                         rel = 'shared' if d['fam'] == u.fam else 'independent'
+                        damaged.add(s)
                         viol.append(('c06', f'access:{rel}-key-damaged-foreign-snapshot',
                                      f'after {st["kind"]} by {st["user"]} ({u.kind}) snapshot #{s} of key {d["owner"]} no longer restores exactly ({err or "content differs"})', rp))
                         break
@@ -690,10 +692,108 @@ def enumerate_keygraphs(r, depth=2, extra_random=0):
     return out
 
 
-def run_worlds(out, drv, label, n, n_ops, mode, prop):
+def _task_worker(func, tasks, results):
+    while True:
+        item = tasks.get()
+        if item is None:
+            return
+        k, arg = item
+        results.put(('start', k, os.getpid()))
+        try:
+            results.put(('done', k, func(arg)))
+        except BaseException as e:  # noqa: BLE001
+            import traceback
+            results.put(('fail', k, f'{type(e).__name__}: {e}\n{traceback.format_exc()[-1500:]}'))
+
+
+def run_tasks(func, args, timeout, workers=None):
+    """map `func` over `args` in worker processes; a task that does not finish within `timeout` seconds (a command of the
+    real implementation hangs) gets its worker killed and yields {'hang': True}; a crashing task yields {'crash': text}.
+    (multiprocessing.Pool would block forever on a lost task.)"""
+    import queue as _q
+    import time
+    ctx = mp.get_context('fork')
+    n = min(workers or 16, os.cpu_count() or 4, max(1, len(args)))
+    tasks, results = ctx.Queue(), ctx.Queue()
+    for k, a in enumerate(args):
+        tasks.put((k, a))
+    procs = {}
+
+    def spawn():
+        p = ctx.Process(target=_task_worker, args=(func, tasks, results), daemon=True)
+        p.start()
+        procs[p.pid] = p
+    for _ in range(n):
+        spawn()
+    out = [None] * len(args)
+    running = {}          # task index -> (pid, start time)
+    done = 0
+    try:
+        while done < len(args):
+            try:
+                msg = results.get(timeout=1.0)
+            except _q.Empty:
+                msg = None
+            if msg is not None:
+                kind, k, payload = msg
+                if kind == 'start':
+                    running[k] = (payload, time.time())
+                else:
+                    running.pop(k, None)
+                    if out[k] is None:
+                        out[k] = payload if kind == 'done' else {'crash': payload}
+                        done += 1
+            now = time.time()
+            for k, (pid, t0) in list(running.items()):
+                if now - t0 > timeout:
+                    p = procs.pop(pid, None)
+                    if p is not None:
+                        p.kill()
+                        p.join(5)
+                    running.pop(k)
+                    if out[k] is None:
+                        out[k] = {'hang': True}
+                        done += 1
+                    spawn()
+            # a worker that died without reporting (killed by the OS): give its task up
+            for pid, p in list(procs.items()):
+                if not p.is_alive():
+                    procs.pop(pid)
+                    for k, (rp_, _) in list(running.items()):
+                        if rp_ == pid:
+                            running.pop(k)
+                            if out[k] is None:
+                                out[k] = {'crash': 'worker process died'}
+                                done += 1
+                    if done < len(args):
+                        spawn()
+    finally:
+        for _ in procs:
+            tasks.put(None)
+        for p in procs.values():
+            p.join(0.2)
+            if p.is_alive():
+                p.kill()
+    return out
+
+
+def report_unfinished(out, res, rp):
+    """a world that hung or crashed: the tie could not be checked there"""
+    if res.get('hang'):
+        out.disagreement('a command of the implementation did not return (world abandoned after the time-out)', rp)
+    else:
+        out.disagreement('the world could not be run: ' + str(res.get('crash'))[:600], rp)
+
+
+def run_worlds(out, drv, label, n, n_ops, mode, prop, timeout=None):
     args = [(out.seed, i, label, n_ops, mode) for i in range(n)]
-    with mp.get_context('fork').Pool(min(16, os.cpu_count() or 4)) as pool:
-        logs = pool.map(run_world, args, chunksize=1)
-    for log in logs:
+    results = run_tasks(run_world, args, timeout or (30 + 3 * n_ops))
+    logs = []
+    for a, log in zip(args, results):
+        if 'steps' not in log:
+            report_unfinished(out, log, {'kind': 'world', 'idx': a[1], 'mode': mode, 'label': label, 'n_ops': n_ops, 'seed': out.seed})
+            out.count('world:unfinished')
+            continue
         check_world(log, drv, out, prop)
+        logs.append(log)
     return logs
